@@ -384,7 +384,7 @@ static void op_urecv(int huge)
 {
   int u = (int)tok_int(); long long maxSize = tok_ll();
   if(u < 1 || u > NU || !us[u]) { skip("urecv: no such socket"); return; }
-  if(!unb[u] && uopen_[u] && !(wait_fd(fdOf(us[u]), POLLIN, 20) & POLLIN)) { skip("blocking recvFrom could block forever"); return; }
+  if(us[u]->isOpen() && !real_nb(us[u]) && !(wait_fd(fdOf(us[u]), POLLIN, 20) & POLLIN)) { skip("blocking recvFrom could block forever"); return; }
   unsigned char* buf;
   if(huge) { huge_init(); if(maxSize > (1LL << 33)) die("urecvhuge: size beyond the mapped region"); buf = hugeDst; }
   else { if(maxSize > (1 << 20)) die("urecv: size beyond the driver's limit"); buf = (unsigned char*)malloc(maxSize ? maxSize : 1); }
